@@ -67,7 +67,9 @@ type param struct {
 
 // URL-reserved characters, control bytes (below 0x10 they need a leading zero when
 // percent-encoded), and text that looks like an escape sequence
-var reserved = []string{" ", "&", "?", "#", "%", "+", "/", "=", "é", ";", "\t", "\n", "\x00", "\x0f", `\`, `\u0026`, `\u003c`, `"`, "%41", "%zz"}
+var reserved = []string{" ", "&", "?", "#", "%", "+", "/", "=", "é", ";", "\t", "\n", "\x00", "\x0f", `\`, `\u0026`, `\u003c`, `"`, "%41", "%zz",
+	// a backslash followed by a letter that makes a JSON escape (the parser reads filter labels as JSON string bodies)
+	`\b`, `\t`, `\n`, `\\`, `\/`, `\"`}
 
 func spice(t *core.Tape, base string) (string, bool) {
 	if !t.Bool(1, 3) {
